@@ -100,6 +100,9 @@ func VerifC07Lifecycle(h *verifh.H) {
 	nops := h.Param("ops", 2)
 	for k := 0; k < nops; k++ {
 		op := h.Choice("op", 6)
+		if h.Param("lifecycleOnly", 0) == 1 {
+			h.Assume(op == 0 || op == 1 || op == 3) // delete, re-create, garbage collection
+		}
 		when := "op" + itoa(k) + "=" + itoa(op)
 		switch op {
 		case 0: // delete
@@ -312,4 +315,46 @@ func vIn(xs []string, x string) bool {
 		}
 	}
 	return false
+}
+
+// VerifC07LateWriter: a writer that resolved dataset a before it was deleted
+// (a sink in the middle of a run, a request that already looked the dataset
+// up) commits its batch at any point around the delete and a garbage
+// collection run (symbolic scheduling at the write path's boundaries). Whether
+// the batch lands before the delete, between delete and collection, or after
+// the collection, nothing written to a is visible to unscoped reads afterwards
+// — at once, after another collection and after a restart — and dataset b is
+// unaffected.
+func VerifC07LateWriter(h *verifh.H) {
+	hs := vNewHistory(h, "a", "b")
+	g := hs.g
+	bv := &mVersion{ID: "ns0:e1", Props: map[string]string{"ns0:v": "x"}, Refs: map[string][]string{"ns0:p1": {"ns0:e2"}}}
+	h.Assert(hs.dss["b"].StoreEntities([]*Entity{mkEntity(bv)}) == nil, "write b")
+	g.write("b", []*mVersion{bv})
+	av := &mVersion{ID: "ns0:e1", Props: map[string]string{"ns0:v": "a0"}, Refs: map[string][]string{"ns0:p1": {"ns0:e3"}}}
+	h.Assert(hs.dss["a"].StoreEntities([]*Entity{mkEntity(av)}) == nil, "write a")
+	late := &mVersion{ID: "ns0:e1", Props: map[string]string{"ns0:v": "late"}, Refs: map[string][]string{"ns0:p1": {"ns0:e3"}}}
+	if h.Choice("lateOther", 2) == 1 {
+		late = &mVersion{ID: "ns0:e2", Props: map[string]string{"ns0:v": "late"}, Refs: map[string][]string{"ns0:p1": {"ns0:e1"}}}
+	}
+	dsA := hs.dss["a"] // the handle the late writer holds
+	obsB := hs.vObserveDataset(h, "b")
+	var derr, gerr error
+	h.SymbolicSched(h.Param("preemptions", 2))
+	h.Go(func() { _ = dsA.StoreEntities([]*Entity{mkEntity(late)}) })
+	h.Go(func() {
+		derr = hs.hub.Dsm.DeleteDataset("a")
+		gerr = NewGarbageCollector(hs.hub.Store, hs.hub.Env).Cleandeleted()
+	})
+	h.Assert(h.Wait(), "writer and delete complete")
+	h.Assert(derr == nil && gerr == nil, "delete and garbage collection succeed")
+	g.deleteDS("a")
+	hs.vCheckUnscoped(h, "after the race")
+	h.Assert(hs.vObserveDataset(h, "b") == obsB, "the other dataset is unaffected")
+	h.Assert(NewGarbageCollector(hs.hub.Store, hs.hub.Env).Cleandeleted() == nil, "second gc succeeds")
+	hs.vCheckUnscoped(h, "after another collection")
+	hs.hub = hs.hub.Restart()
+	hs.vCheckUnscoped(h, "after a restart")
+	h.Assert(hs.vObserveDataset(h, "b") == obsB, "the other dataset is unaffected after the restart")
+	h.Observe("done", true)
 }
